@@ -236,4 +236,5 @@ sites! {
     IO_SCHEDULE_TOOK = 247,
     IO_CANCEL_TOOK = 248,
     EP_DEL_FD_ENTER = 249,
+    IO_TIMER_UNLINK = 250,
 }
